@@ -197,6 +197,19 @@ CHECKS = {
             "float seconds compared with 2 microsecond tolerance", "5/C03"),
 }
 
+# growth modules: model-checked and bound inside the check of the property they support
+EXTRA_ENGINES = [
+    ("PrioDict", ["C06", "C10"], "TLA+ state machine of priority_dict (dictionary + lazy heap); stateful trace validation of direct histories and of "
+                                 "histories recorded by runtime wrappers inside the real Dijkstra / Network.prepare"),
+    ("NetTopo", ["C06"], "TLA+ model of Network.addNode / addEdge and the adjacency tables; stateful trace validation of random histories"),
+    ("TimeFormat", ["C13"], "TLA+ model of the ObsTime format-code grammar (print / fixed-offset read); 440 formats x 6 instants replayed"),
+    ("Compare", ["C18"], "TLA+ acceptance of nearest-neighbour matching and pointwise comparison; recorded results judged by CompareTrace.tla"),
+    ("Query", ["C02"], "TLA+ semantics of Track.query (WHERE as OR of ANDs, field lists, aggregators); every enumerated query replayed"),
+    ("Geo2D", ["C10", "C16", "C17", "C20"], "shared exact plane geometry (fractions, point-segment distance, integer-leg abscissas)"),
+    ("Rat", ["C02"], "shared exact rationals with NaN / Undef"),
+    ("Batch", ["C04", "C05", "C07", "C08", "C09", "C10", "C11", "C12", "C15", "C16", "C17", "C18", "C19", "C20"],
+     "batch trace-validation step shared by the *Trace modules (REJECT id clause / DONE n nbad)"),
+]
 ALL = ["C%02d" % i for i in range(1, 21)]
 
 
@@ -233,7 +246,9 @@ def main():
         "engines": [{"name": "tlc-" + CHECKS[p][0], "path": "/verif/spec/%s.tla" % CHECKS[p][0],
                      "serves_properties": [p],
                      "kind_free_text": "TLA+ specification checked by TLC 1.8 and bound to the code by replay / trace validation"}
-                    for p in ALL if p in claimed],
+                    for p in ALL if p in claimed] +
+                   [{"name": "tlc-" + m, "path": "/verif/spec/%s.tla" % m, "serves_properties": ps, "kind_free_text": txt}
+                    for m, ps, txt in EXTRA_ENGINES],
         "checks": checks,
         "notes": "All checks: /venv/bin/python harness/vcheck.py --property <id> --tier quick|thorough; "
                  "exit 0 held / 1 VIOLATION / 2 machinery failure. See DESIGN.md.",
